@@ -24,6 +24,39 @@ def _leaves(block):
     return bool(block) and isinstance(block[-1], _TERMINATORS)
 
 
+def _leave_expr(block):
+    """The condition (an expression tree, True, or None for 'never') under which control, having entered `block`, leaves the
+    enclosing block through the block's last statement (return / continue / break; a raise is an error path and not
+    counted).  Only the last statement is looked at: earlier statements of the block are assumed to fall through."""
+    if not block:
+        return None
+    last = block[-1]
+    if isinstance(last, (ast.Return, ast.Continue, ast.Break)):
+        return True
+    if isinstance(last, ast.If):
+        a, b = _leave_expr(last.body), _leave_expr(last.orelse)
+        parts = []
+        if a is True:
+            parts.append(last.test)
+        elif a is not None:
+            parts.append(ast.BoolOp(op=ast.And(), values=[last.test, a]))
+        nt = ast.UnaryOp(op=ast.Not(), operand=last.test)
+        if b is True:
+            parts.append(nt)
+        elif b is not None:
+            parts.append(ast.BoolOp(op=ast.And(), values=[nt, b]))
+        if not parts:
+            return None
+        if len(parts) == 2 and a is True and b is True:
+            return True
+        res = parts[0] if len(parts) == 1 else ast.BoolOp(op=ast.Or(), values=parts)
+        for x in ast.walk(res):
+            if not hasattr(x, "lineno") and isinstance(x, (ast.expr, ast.stmt)):
+                ast.copy_location(x, last.test)
+        return res
+    return None
+
+
 def path_tests(fnode, node, strict=False):
     """[(test expr, polarity)] holding whenever `node` is reached (a sound under-approximation of the path condition
     in the sense that every listed test does hold; unlisted facts are simply not used)."""
@@ -57,12 +90,9 @@ def path_tests(fnode, node, strict=False):
                     if s is child:
                         break
                     if isinstance(s, ast.If):
-                        if s.body and isinstance(s.body[-1], ast.Raise) and not s.orelse:
-                            continue      # an argument check: the error path is not a behaviour the rules constrain
-                        if _leaves(s.body) and not _leaves(s.orelse):
-                            out.append((s.test, False))
-                        elif _leaves(s.orelse) and not _leaves(s.body):
-                            out.append((s.test, True))
+                        le = _leave_expr([s])
+                        if le is not None and le is not True:
+                            out.append((le, False))
         child, p = p, getattr(p, "_parent", None)
     return out
 
